@@ -8,6 +8,8 @@ import (
 	"io"
 	"os"
 	"sync"
+
+	"github.com/douban/gobeansdb/vhook"
 )
 
 const (
@@ -198,6 +200,8 @@ func (tree *HTree) dump(path string) {
 	}
 	f.Close()
 	f = nil
+	vhook.FS(vhook.Before, "rename", path, 0, 0)
+	defer vhook.FS(vhook.After, "rename", path, 0, 0)
 	os.Rename(tmp, path)
 	logger.Infof("htree dumped %s, min leaf %d, max leaf %d", path, minleaf, maxleaf)
 }
